@@ -165,12 +165,13 @@ type Sim struct {
 	victim     *task
 	last       *task
 
-	stallPct  int // percent*10 probability of a stall per step (0 = off)
-	stalls    int
-	idles     int
-	schedHash uint64
-	interl    int // steps at which more than one task was runnable
-	maxRun    int
+	stallPct    int  // percent*10 probability of a stall per step (0 = off)
+	newbornLast bool // tasks parked at "start" are released only when nothing else is runnable
+	stalls      int
+	idles       int
+	schedHash   uint64
+	interl      int // steps at which more than one task was runnable
+	maxRun      int
 
 	horizonHit   bool
 	regOverflow  bool
@@ -493,6 +494,15 @@ func SelectOrder(site string, n int) [8]int {
 //go:norace
 func EnableStalls(permille int) {
 	cur.stallPct = permille
+}
+
+// NewbornLast makes the scheduler (generation mode) prefer tasks that have already run over tasks
+// that were spawned and have not executed their first statement yet: a goroutine may take
+// arbitrarily long to start, and code that assumes it has started is wrong.
+//
+//go:norace
+func NewbornLast(on bool) {
+	cur.newbornLast = on
 }
 
 // ---------------------------------------------------------------------------
